@@ -209,7 +209,7 @@ func (c *check) Init(tier string, seed int64) engine.Space {
 			"deviation_menu": devName[:], "deviation_css": devCSS[:], "sub_spaces": bs, "max_deviations_per_box": 2,
 		},
 		Assumptions: []string{
-			"one page, LTR, Ahem 10px; no explicit sizes: every line holds its content, so each inline box is one fragment",
+			"one page, LTR, Ahem 10px; no explicit sizes and white-space:nowrap: no line is ever broken, so each inline box is one fragment (calibration: without nowrap an inline box holding an inline-block inside two nested shrink-to-fit absolute boxes is split over two lines and paints its background twice)",
 			"the position (layer) of a box that is a stacking context only because of overflow:hidden and is not positioned is not asserted (implementation choice): only its atomicity and the order inside and outside it",
 			"outlines: only the per-box order (after the box's own background, border and text), their presence and their atomicity are asserted, not their position among other boxes (Appendix E allows step 10 or in place)",
 			"in-flow block-level children of display:inline boxes, block-in-inline splitting and inline boxes broken over lines are outside the alphabet",
@@ -254,7 +254,7 @@ func (cs acase) desc() string {
 	return "shape=" + shapeString(cs.parents) + " kinds=" + strings.Join(ks, "/")
 }
 
-const prelude = `<style>@page{size:300px 300px;margin:0} html,body{margin:0;font-family:ahem;font-size:10px;line-height:1}</style><body>`
+const prelude = `<style>@page{size:300px 300px;margin:0} html,body{margin:0;font-family:ahem;font-size:10px;line-height:1;white-space:nowrap}</style><body>`
 
 func boxCSS(id int, k kind) string {
 	parts := []string{fmt.Sprintf("background:#%02x0000", id)}
